@@ -173,7 +173,8 @@ def ctorMoveSk : List Sk := [
 /-- `operator=(const small_vector &)` — Model `assignCopy` (and `Op.assignSelf` for `this == &rhs`).
     `needs_memory`: `freeHeap` if on the heap, fresh block, `constructRange`.  Otherwise `assigned` = n for
     trivial T or inline storage, `min(n, size())` on the heap: `destroyRange hb n (size - n)` when n < size (heap,
-    non-trivial), `assignRange 0 (vals.take assigned)`, `constructRange assigned (vals.drop assigned)` -/
+    non-trivial), `assignRange 0 (vals.take assigned)`, `constructRange assigned (vals.drop assigned)`.
+    SEMANTIC link: `assign_skeleton_denotes_model` (Props) -/
 def assignCopySk : List Sk := [
   .ite "this!=&rhs" [
       .decl "const auto n(rhs.size())",
